@@ -180,9 +180,16 @@ def exhaustive(tier):
                 if route == "iadd-own-value" and kind not in ("list", "typed-list"):
                     continue
                 yield {"mode": "same-as-default", "kind": kind, "place": place, "route": route}
+    # a sub-configuration OBJECT (one that belongs to another configuration, or a free-standing one) assigned as a whole:
+    # its leaves keep the status they had - no value was assigned or loaded for a leaf that was at its default
+    for kind in ("schema", "configtype"):
+        for source in ("other-config", "free-standing", "own"):
+            for route in ("setattr", "setitem", "ctor", "load_tree"):
+                for depth in (1, 2):
+                    yield {"mode": "adopted-subconfig", "kind": kind, "source": source, "route": route, "depth": depth}
     # a constant list / dict default, empty or not, EDITED IN PLACE through one configuration: every other configuration
     # (built before or after the edit) and every reset still expose the declared default
-    for kind in ("list", "typed-list", "dict", "typed-dict", "keyed-dict"):
+    for kind in ("list", "typed-list", "any-list", "dict", "typed-dict", "keyed-dict", "any-dict"):
         for size in (0, 1, 3):
             for place in ("root", "nested", "list-item"):
                 yield {"mode": "edited-default", "kind": kind, "size": size, "place": place}
@@ -241,6 +248,64 @@ def _same_as_default_case(case, R):
     R.check(cc.is_value_defined(cfg, "other") is False, "defined-iff", "same-as-default:others", "another field became user-defined")
 
 
+def _adopted_subconfig_case(case, R):
+    cc = sandbox._state["cc"]
+    kind, source, route, depth = case["kind"], case["source"], case["route"], case["depth"]
+    sub = cc.Schema()
+    sub.host = cc.StringField(default="localhost")
+    sub.port = cc.IntField(default=80)
+    sub.tags = cc.ListField(cc.StringField(), default=lambda: ["a"])
+    sub.deep.level = cc.IntField(default=1)
+    sub.deep.note = cc.StringField()
+    schema = cc.Schema()
+    schema.other = cc.IntField(default=7)
+    holder = schema if depth == 1 else schema.outer
+    if kind == "schema":
+        holder.sub = sub
+    else:
+        holder.sub = cc.make_type(sub, "AdoptedT", module=__name__)
+    owner = (lambda cfg: cfg) if depth == 1 else (lambda cfg: cfg.outer)
+    key = "sub" if depth == 1 else "outer.sub"
+    R.label("adopted-subconfig", "adopted-subconfig:" + source)
+    R.nontrivial = True
+    src = schema()
+    if source == "free-standing":
+        giver = type(owner(src).sub)() if kind == "configtype" else sub()
+    else:
+        giver = owner(src).sub
+    giver.port = 8080
+    giver.deep.note = "n"
+    leaves = [("host", False), ("port", True), ("tags", False), ("deep.level", False), ("deep.note", True)]
+
+    def status(c):
+        return [(name, cc.is_value_defined(c, name)) for name, _ in leaves]
+    if not R.check(status(giver) == leaves, "defined-iff", "adopted-subconfig:giver", lambda: "before the assignment the giver reports %r" % (status(giver),)):
+        return
+    dst = src if source == "own" else schema()
+    try:
+        if route == "setattr":
+            owner(dst).sub = giver
+        elif route == "setitem":
+            dst[key] = giver
+        elif route == "ctor":
+            if depth != 1:
+                return
+            dst = schema(sub=giver)
+        else:
+            dst.load_tree({"sub": giver} if depth == 1 else {"outer": {"sub": giver}})
+    except Exception:
+        R.label("adopted-subconfig:rejected")
+        return
+    got = owner(dst).sub
+    if not isinstance(got, cc.Config):
+        return
+    R.check((got.host, got.port, list(got.tags), got.deep.level, got.deep.note) == ("localhost", 8080, ["a"], 1, "n"), "defined-iff", "adopted-subconfig:values",
+            lambda: "after %s of a sub-configuration object the values read %r" % (route, (got.host, got.port, got.tags, got.deep.level, got.deep.note)))
+    R.check(status(got) == leaves, "defined-iff", "adopted-subconfig:%s:%s" % (source, route),
+            lambda: "a sub-configuration object (%s) with port and deep.note assigned was given to %s via %s: its leaves now report user-defined = %r" % (source, key, route, status(got)))
+    R.check(cc.is_value_defined(dst, "other") is False, "defined-iff", "adopted-subconfig:others", "another field became user-defined")
+
+
 def _edited_default_case(case, R):
     cc = sandbox._state["cc"]
     kind, size, place = case["kind"], case["size"], case["place"]
@@ -248,6 +313,7 @@ def _edited_default_case(case, R):
     declared = [10, 20, 30][:size] if is_list else dict([("a", 1), ("b", 2), ("c", 3)][:size])
     literal = type(declared)(declared)  # the object handed to the field; ``declared`` is never shared with the library
     field = {"list": lambda: cc.ListField(default=literal), "typed-list": lambda: cc.ListField(cc.IntField(), default=literal),
+             "any-list": lambda: cc.ListField(cc.AnyField(), default=literal), "any-dict": lambda: cc.DictField(cc.AnyField(), cc.AnyField(), default=literal),
              "dict": lambda: cc.DictField(default=literal), "typed-dict": lambda: cc.DictField(cc.StringField(), cc.IntField(), default=literal),
              "keyed-dict": lambda: cc.DictField(cc.StringField(), default=literal)}[kind]()
     schema = cc.Schema()
@@ -412,6 +478,8 @@ def _varying_case(case, R):
 def run_case(case, R):
     if case.get("mode") == "varying-default":
         return _varying_case(case, R)
+    if case.get("mode") == "adopted-subconfig":
+        return _adopted_subconfig_case(case, R)
     if case.get("mode") == "edited-default":
         return _edited_default_case(case, R)
     if case.get("mode") == "same-as-default":
